@@ -648,6 +648,7 @@ pub fn key_seed(seed: u64, subject_idx: usize, k: usize) -> u64 {
 
 /// Executes one explicit scenario (subject under one key seed after a prefix) on a fresh thread.
 pub fn run_scenario(subject: &Subject, key_seed: u64, prefix: &[String]) -> Outcome {
+    crate::run::note_current(|| scenario_json(crate::boot::current(), subject, key_seed, prefix));
     let s = subject.clone();
     let prefix: Vec<String> = prefix.to_vec();
     match on_fresh_thread(key_seed, move || {
